@@ -95,7 +95,7 @@ _rule_named_ts = "|".join(r"(?P<t_{}>{})".format(n, expr) for n, expr in _named_
 _rule_named_ts = r"({})\s*".format(_rule_named_ts)
 
 
-@rule(_rule_named_ts + r"(uhr|h|o\'?clock)?")
+@rule(_rule_named_ts + r"((uhr|h|o\'?clock)\b)?")
 def ruleNamedHour(ts: datetime, m: RegexMatch) -> Optional[Time]:
     match = m.match
     for n, _, in _named_ts:
@@ -502,7 +502,7 @@ def _maybe_apply_am_pm(t: Time, ampm_match: str) -> Time:
 @rule(
     # match hhmm
     r"(?<!\d|\.)(?P<hour>(?:[01]\d)|(?:2[0-3]))(?P<minute>(?&_minute))"
-    r"\s*(?P<clock>uhr|h)?"  # optional uhr
+    r"\s*(?P<clock>(uhr|h)\b)?"  # optional uhr (a whole word: not the h of "heute")
     r"\s*(?P<ampm>\s*[ap]\.?m\.?)?(?!\d)"  # optional am/pm
 )
 def ruleHHMMmilitary(ts: datetime, m: RegexMatch) -> Optional[Time]:
@@ -517,7 +517,7 @@ def ruleHHMMmilitary(ts: datetime, m: RegexMatch) -> Optional[Time]:
     r"(?P<hour>(?&_hour))"  # We certainly match an hour
     # We try to match also the minute
     r"((?P<sep>:|uhr|h|\.)(?P<minute>(?&_minute)))?"
-    r"\s*(?P<clock>uhr|h)?"  # We match uhr with no minute
+    r"\s*(?P<clock>(uhr|h)\b)?"  # We match uhr with no minute (a whole word: not the h of "heute")
     r"(?P<ampm>\s*[ap]\.?m\.?)?"  # AM PM
     r"(?!\d)"
 )
@@ -529,7 +529,7 @@ def ruleHHMM(ts: datetime, m: RegexMatch) -> Time:
     return _maybe_apply_am_pm(t, m.match.group("ampm"))
 
 
-@rule(r"(?<!\d|\.)(?P<hour>(?&_hour))\s*(uhr|h|o\'?clock)")
+@rule(r"(?<!\d|\.)(?P<hour>(?&_hour))\s*(uhr|h|o\'?clock)\b")
 def ruleHHOClock(ts: datetime, m: RegexMatch) -> Time:
     return Time(hour=int(m.match.group("hour")))
 
